@@ -84,8 +84,23 @@ def all2 (cfg : Cfg) (hdr stream : List UInt8) : UInt64 := Id.run do
     h := fnvByte h 10
   return h
 
+def sweep (cfg : Cfg) (hdr pre : List UInt8) (n : Nat) : UInt64 := Id.run do
+  let mut h := fnvOffset
+  let ones := List.replicate (hdr.length + pre.length + n) 1
+  for k in [0:256 ^ n] do
+    let bs := pre ++ (List.range n).map fun j => UInt8.ofNat (k / 256 ^ (n - 1 - j))
+    h := fnvString h (outputStr (run cfg hdr.length (hdr ++ bs) []))
+    h := fnvByte h 10
+    h := fnvString h (outputStr (run cfg hdr.length (hdr ++ bs) ones))
+    h := fnvByte h 10
+  return h
+
 def handle (toks : List String) : String :=
   match toks with
+  | ["sweep", ver, hh, n, ph] =>
+    match cfgOf ver, parseHex hh, parseNat n, parseHex ph with
+    | some cfg, some hdr, some n, some pre => s!"h {sweep cfg hdr pre n}"
+    | _, _, _, _ => "bad-op"
   | [op, ver, hh, sh, frag] =>
     match cfgOf ver, parseHex hh, parseHex sh with
     | some cfg, some hdr, some stream =>
